@@ -67,6 +67,21 @@ def _dec_opts(rng, kind):
     return {}
 
 
+_MULTI = {}
+
+
+def _accepts_multiblock(spec, dk, opts, n) -> bool:
+    key = core.cjson([spec, dk, opts])
+    if key not in _MULTI:
+        try:
+            with torch.no_grad():
+                out = C.build_decoder(spec, dk, opts)(torch.ones(1, 2 * n) if dk in C.SOFT_DECODERS else torch.zeros(1, 2 * n))
+            _MULTI[key] = isinstance(out, torch.Tensor)
+        except Exception:
+            _MULTI[key] = False
+    return _MULTI[key]
+
+
 def _pattern(rng, n, w, enc, spec):
     """positions of exactly w flips inside one block, by a seeded placement kind"""
     if w <= 0:
@@ -133,7 +148,9 @@ def gen_case(run_seed: int, index: int, tier: str) -> dict:
         case["inadmissible"] = f"modem: {e}"[:300]
         return case
     b = next((bb for bb in (1, 2, 3, 4) if (bb * n) % bps == 0), None)
-    if b is None:
+    if b is None or (b > 1 and pk != "bsc" and not _accepts_multiblock(spec, dk, opts, n) and rng.random() < 0.8):
+        # a decoder that rejects rows carrying several blocks (measured on this tree with the all-zero word)
+        # gets most of its runs on one block per row; sampling bias only, the oracle is unchanged
         mod = {"scheme": "bpsk", "complex_output": rng.random() < 0.5} if pk != "bsc" else mod
         m, _ = C.build_modem(mod)
         bps, b = 1, 1
